@@ -87,6 +87,10 @@ def call_builtin(world, eng, p, h, args, kws):
             c = p.heap[x.oid]
             if c[0] == 'slist': return [(p, SSeq(c[1], c[2]))]
         if isinstance(x, SSeq): return [(p, x)]
+        if isinstance(x, Host) and x.kind == 'arrslice':
+            from .heapmodels import arrslice_items
+            its = arrslice_items(eng, x)
+            if its is not None: return [(p, tuple(its))]
         raise Unsupported(f'tuple({x!r})')
     if n == 'builtins.list':
         if not args:
